@@ -217,6 +217,7 @@ func checkC03(c *hx.Ctx) {
 	chainsThroughBatchFiles(c, c.N(60, 1200))
 	c03ThroughObserver(c)
 	c.Floor("histories_through_the_observer", 40)
+	c.Floor("observer_nodes_reading_from_alternate_sources", 15)
 	c.Floor("notifications_mixing_protocol_versions", 15)
 	c.Floor("batch_file_rounds", 100)
 	c.Floor("state_leak_probes", 3)
